@@ -229,7 +229,9 @@ def frameReceived (st : State) (oid : Nat) (s : Stream) (f : Frame) : State × L
     | .error =>
       let s' := { s with responseReceived := true }
       if s.fut == .pending then
-        ((st.setObj oid { s' with fut := .err, cb := true }).finish s.sid, [.futError oid f.code])
+        -- `error_frame_to_exception` decodes the text: undecodable text raises before the future is touched
+        if f.respond then (st.setObj oid s', [.send (mkError f.sid cApplicationError)])
+        else ((st.setObj oid { s' with fut := .err, cb := true }).finish s.sid, [.futError oid f.code])
       else ((st.setObj oid s').finish s.sid, [])
     | _ => (st, [])
   | .rrResp =>
@@ -248,7 +250,7 @@ def frameReceived (st : State) (oid : Nat) (s : Stream) (f : Frame) : State × L
         let outs := if f.next then [.onNext oid f.data f.complete] else if f.complete then [.onComplete oid] else []
         (if f.complete then st.finish s.sid else st, outs)
     | .error =>
-      if !s.subscribed then (st, [.send (mkError f.sid cApplicationError)])
+      if !s.subscribed || f.respond then (st, [.send (mkError f.sid cApplicationError)])
       else (st.finish s.sid, [.onError oid f.code])
     | _ => (st, [])
   | .stResp =>
@@ -275,7 +277,7 @@ def frameReceived (st : State) (oid : Nat) (s : Stream) (f : Frame) : State × L
       else (st, [])
     | .error =>
       if s.recvComplete then (st, [])
-      else if !s.subscribed then (st, [.send (mkError f.sid cApplicationError)])
+      else if !s.subscribed || f.respond then (st, [.send (mkError f.sid cApplicationError)])
       else (markChannel st oid s true false, [.onError oid f.code])
     | _ => (st, [])
 
